@@ -344,4 +344,54 @@ theorem readSubgraphs_norm (d : Desc) (m : ModelT) (codes : List Code) (rcs : Li
         simp only [bind, Except.bind]
         rw [readSubgraphs_norm d m codes rcs hrcs subs sgs h2 r.2]
 
+
+/-! ## metadata, the whole file -/
+
+theorem mapM_pure {α β : Type} (h : α → β) : ∀ (l : List α), l.mapM (fun a => (Except.ok (h a) : Except String β)) = .ok (l.map h)
+  | [] => rfl
+  | a :: l => by rw [List.mapM_cons, mapM_pure h l]; rfl
+
+theorem readMetadata_norm (d : Desc) (opcodes : List OpCodeT) (sgs : List SubGraphT) (st : St) (metas : List MetaW) :
+    Reader.readMetadata ((assemble d opcodes sgs st metas).buffers.map Reader.parseBuffer) (assemble d opcodes sgs st metas).metadata =
+      .ok (metas.map fun mw => { nameIsBytes := true, name := mw.name, data := Reader.parseBuffer { data := mw.data } }) := by
+  unfold Reader.readMetadata
+  refine Eq.trans (congrArg (· >>= fun r => pure (r.filterMap id)) (mapM_congr_idx _
+    (fun mw : MetaW => (Except.ok (some { nameIsBytes := true, name := mw.name, data := Reader.parseBuffer { data := mw.data } }) :
+        Except String (Option MetaD))) _ metas ?_ ?_)) ?_
+  · simp [assemble]
+  · intro i f mw hf hmw
+    obtain ⟨mw', e1, e2, e3⟩ := assemble_metadata_get d opcodes sgs st metas i f hf
+    rw [hmw] at e1
+    obtain rfl := Option.some.inj e1
+    simp only [e2, List.getElem?_map, e3, Option.map_some]
+    rfl
+  · rw [mapM_pure]
+    simp only [bind, Except.bind, pure, Except.pure, List.filterMap_map]
+    congr 1
+    induction metas with
+    | nil => rfl
+    | cons a l ih => simp
+
+/-- **the assembled round trip**: reading the file the writer produced is `normalise` (as `Except` values: the reader fails on
+the written file exactly where `normalise` fails, with the same error kind) -/
+theorem read_writeWith (d : Desc) (subs : List PSub) (hs : (subgraphsToWrite d).mapM (prepSub d.tensors) = .ok subs)
+    (enum : List Code) (m : ModelT) (h : writeWith d enum = .ok m) :
+    Reader.read d.version m = normalise d := by
+  obtain ⟨subs', h1, hl, hfacts⟩ := write_sgFacts d enum m h
+  rw [hs] at h1
+  obtain rfl := Except.ok.inj h1
+  obtain ⟨subs2, opcodes, st, metas, h1', _, _, h4, hm, acc, _⟩ := write_facts d enum m h
+  rw [hs] at h1'
+  obtain rfl := Except.ok.inj h1'
+  obtain ⟨rcs, hr1, hr2⟩ := write_rcodes d enum m h
+  have hF : List.Forall₂ (SgFacts d m (sortCodes enum)) subs m.subgraphs :=
+    forall₂_of_getElem? _ _ _ hl.symm (fun i ps sg hp hsg => hfacts i ps sg hp hsg)
+  have hsub := readSubgraphs_norm d m (sortCodes enum) rcs hr2 subs m.subgraphs hF []
+  have hmeta : Reader.readMetadata (m.buffers.map Reader.parseBuffer) m.metadata =
+      .ok (metas.map fun mw => { nameIsBytes := true, name := mw.name, data := Reader.parseBuffer { data := mw.data } }) := by
+    rw [hm]; exact readMetadata_norm d opcodes m.subgraphs st metas
+  rw [acc.maps_eq] at h4
+  unfold Reader.read normalise
+  simp only [hr1, hsub, hmeta, hs, h4, bind, Except.bind, pure, Except.pure]
+
 end VelaVerif.Tflite.Spec
